@@ -12,7 +12,7 @@ import copy as _copy
 from lib.coqterm import cbool, cN, clist, cnat, copt
 
 ID = "C40"
-QUICK_N = 2400
+QUICK_N = 2000
 THOROUGH_N = 40000
 SHARD = 300
 RULE = ("flow type uniform over 9 kinds (http with/without response, with error, with websocket, tcp, udp, dns "
